@@ -21,7 +21,7 @@ CONSTANTS Keys, Vals, BKeys, BVals, MaxBatch, MaxSnaps, MaxDepth,
 
 TOMB == "x"          \* overlay entry of a deleted key; not a value
 
-VARIABLES under,  \* [Keys -> Vals \cup {NONE}]
+VARIABLES under,  \* [Keys -> Vals \cup BVals \cup {NONE}]
           over,   \* [written keys -> Vals \cup {TOMB}]
           batch, bw, snaps,
           gview, gdirty,   \* ghosts
@@ -61,10 +61,10 @@ AbsOf(s) == [under |-> ViewJ(SortedKeys, s.under), over |-> OverJ(s.over), batch
 Abs == AbsOf(Cur)
 
 TypeOK ==
-  /\ under \in [Keys -> Vals \cup {NONE}]
-  /\ DOMAIN over \subseteq Keys /\ \A k \in DOMAIN over : over[k] \in Vals \cup {TOMB}
+  /\ under \in [Keys -> Vals \cup BVals \cup {NONE}]
+  /\ DOMAIN over \subseteq Keys /\ \A k \in DOMAIN over : over[k] \in Vals \cup BVals \cup {TOMB}
   /\ Len(batch) <= MaxBatch /\ bw \in BOOLEAN
-  /\ \A i \in 1..MaxSnaps : snaps[i].live \in BOOLEAN /\ snaps[i].view \in [Keys -> Vals \cup {NONE}]
+  /\ \A i \in 1..MaxSnaps : snaps[i].live \in BOOLEAN /\ snaps[i].view \in [Keys -> Vals \cup BVals \cup {NONE}]
 
 Init ==
   /\ \E s \in InitSet : /\ under = s.under /\ over = s.over /\ batch = s.batch /\ bw = s.bw /\ snaps = s.snaps
